@@ -60,6 +60,8 @@ theorem runMigration_shape (cfg : Cfg) (env : Env) (last : SV) (i : Nat) (s : Ru
   · exact .stop _ _ [.ret i _ _ _, .call i s.cur, .before i (s.disk.ist i)] rfl rfl rfl (by simp [Quiet]) (by simp [callIdxs])
   split
   · rename_i st heq
+    split
+    · exact .stop _ _ [.ret i _ _ _, .call i s.cur, .before i (s.disk.ist i)] rfl rfl rfl (by simp [Quiet]) (by simp [callIdxs])
     refine .save _ _ st (decide (env.cancelAt ≤ s.tick + 1 + 1)) heq rfl rfl (by simp only [RunSt.tickEv, RunSt.cancelled, heq] <;> rfl) ?_
     intro h
     simp only [RunSt.cancelled, RunSt.tickEv] at h ⊢
@@ -70,6 +72,8 @@ theorem runMigration_shape (cfg : Cfg) (env : Env) (last : SV) (i : Nat) (s : Ru
     split
     · exact .stop _ _ [.ret i _ _ _, .call i s.cur, .before i (s.disk.ist i)] rfl rfl rfl (by simp [Quiet]) (by simp [callIdxs])
     · rename_i h2
+      split
+      · exact .stop _ _ [.ret i _ _ _, .call i s.cur, .before i (s.disk.ist i)] rfl rfl rfl (by simp [Quiet]) (by simp [callIdxs])
       refine .apply _ (decide (env.cancelAt ≤ s.tick + 1 + 1)) heq ?_ rfl rfl (by simp only [RunSt.tickEv, RunSt.cancelled, heq] <;> rfl)
       cases herr : (env.beh i).err <;> simp_all [RunSt.cancelled, RunSt.tickEv]
       exact of_decide_eq_true ‹_›
@@ -318,18 +322,23 @@ theorem loop_step (cfg : Cfg) (env : Env) (T cur0 : SV) (d : Disk) (i : Nat) (re
 def Disk.cur (d : Disk) : SV := d.metaD.cur
 def Disk.last (d : Disk) : SV := d.metaD.last
 
-/-- A process that dies before its first write changes nothing. -/
-theorem run_crash0 (cfg : Cfg) (reg : Registry) (env : Env) (d : Disk) (h0 : env.crashAt = 0) :
+/-- A process that dies before its first write, or whose first write fails, changes nothing. -/
+theorem run_crash0 (cfg : Cfg) (reg : Registry) (env : Env) (d : Disk) (h0 : env.crashAt = 0 ∨ env.failAt = 1) :
     (run cfg reg env d).1.disk = d ∧ (run cfg reg env d).1.log = [] := by
   unfold run
-  simp [RunSt.dead, h0]
+  rcases h0 with h0 | h0
+  · simp [RunSt.dead, h0]
+  · by_cases hd : env.crashAt ≤ 0
+    · simp [RunSt.dead, hd]
+    · simp [RunSt.dead, hd, RunSt.writeFails, h0]
 
 /-- After its first write a `Run` satisfies `RunQ`. -/
-theorem run_Q (cfg : Cfg) (reg : Registry) (env : Env) (d : Disk) (h0 : env.crashAt ≠ 0) :
+theorem run_Q (cfg : Cfg) (reg : Registry) (env : Env) (d : Disk) (h0 : env.crashAt ≠ 0) (hf : env.failAt ≠ 1) :
     RunQ cfg env reg.target d.cur d (run cfg reg env d).1 := by
   unfold run
   have hd : ¬ (env.crashAt ≤ 0) := by omega
-  simp only [RunSt.dead, hd, decide_false, Bool.false_eq_true, if_false]
+  have hwf : (env.failAt == 0 + 1) = false := by simp [hf]
+  simp only [RunSt.dead, RunSt.writeFails, hwf, hd, decide_false, Bool.false_eq_true, if_false]
   have hq1 : RunQ cfg env reg.target d.cur d
       { (RunSt.tickEv ⟨d, d.metaD.cur, 0, []⟩ (.metaWrite ⟨d.metaD.cur, reg.target⟩)) with
         disk := { d with md := some ⟨d.metaD.cur, reg.target⟩ } } := by
@@ -369,17 +378,19 @@ theorem disk_cur_of_md {d : Disk} {c l : SV} (h : d.md = some ⟨c, l⟩) : d.cu
 satisfying `RunQ`. -/
 theorem start_cases (cfg : Cfg) (d : Disk) (st : Start) :
     ((start cfg d st).1 = d ∧ (start cfg d st).2.1 = []) ∨
-    (newRunner cfg st.reg d = .ok ∧ st.env.crashAt ≠ 0 ∧
+    (newRunner cfg st.reg d = .ok ∧ st.env.crashAt ≠ 0 ∧ st.env.failAt ≠ 1 ∧
       ∃ s, RunQ cfg st.env st.reg.target d.cur d s ∧ (start cfg d st).1 = s.disk ∧ (start cfg d st).2.1 = s.log) := by
   unfold start
   cases hn : newRunner cfg st.reg d with
   | optOut => exact .inl ⟨rfl, rfl⟩
   | downgrade => exact .inl ⟨rfl, rfl⟩
   | ok =>
-    by_cases h0 : st.env.crashAt = 0
+    by_cases h0 : st.env.crashAt = 0 ∨ st.env.failAt = 1
     · have := run_crash0 cfg st.reg st.env d h0
       exact .inl ⟨this.1, this.2⟩
-    · exact .inr ⟨rfl, h0, _, run_Q cfg st.reg st.env d h0, rfl, rfl⟩
+    · have h1 : st.env.crashAt ≠ 0 := fun e => h0 (.inl e)
+      have h2 : st.env.failAt ≠ 1 := fun e => h0 (.inr e)
+      exact .inr ⟨rfl, h1, h2, _, run_Q cfg st.reg st.env d h1 h2, rfl, rfl⟩
 
 /-- `Migrate` of `j` returned `(nil, nil)`. -/
 def Completed (log : List Event) (j : Nat) : Prop := ∃ c, Event.ret j none .none c ∈ log
@@ -390,7 +401,7 @@ theorem start_applied (cfg : Cfg) (d : Disk) (st : Start) (j : Nat)
     (h : (start cfg d st).1.cur.has j = true) :
     d.cur.has j = true ∨ Completed (start cfg d st).2.1 j ∨
       (cfg.markOnNilCtx = true ∧ NilCtx (start cfg d st).2.1 j) := by
-  rcases start_cases cfg d st with ⟨h1, _⟩ | ⟨_, _, s, hq, h1, h2⟩
+  rcases start_cases cfg d st with ⟨h1, _⟩ | ⟨_, _, _, s, hq, h1, h2⟩
   · rw [h1] at h; exact .inl h
   · rw [h1, (disk_cur_of_md hq.md).1] at h
     rcases hq.cur_sub j h with h3 | ⟨_, h3⟩
@@ -422,7 +433,7 @@ theorem starts_applied (cfg : Cfg) (sts : List Start) : ∀ (d : Disk) (j : Nat)
 def Disk.Clean (d : Disk) : Prop := ∀ j, d.cur.has j = true → d.ist j = none
 
 theorem start_clean (cfg : Cfg) (d : Disk) (st : Start) (h : d.Clean) : (start cfg d st).1.Clean := by
-  rcases start_cases cfg d st with ⟨h1, _⟩ | ⟨_, _, s, hq, h1, _⟩
+  rcases start_cases cfg d st with ⟨h1, _⟩ | ⟨_, _, _, s, hq, h1, _⟩
   · rw [h1]; exact h
   · rw [h1]
     intro j hj
@@ -445,7 +456,7 @@ theorem starts_clean (cfg : Cfg) (sts : List Start) : ∀ d : Disk, d.Clean → 
 /-- Bits are never cleared. -/
 theorem start_mono (cfg : Cfg) (d : Disk) (st : Start) (j : Nat) (h : d.cur.has j = true) :
     (start cfg d st).1.cur.has j = true := by
-  rcases start_cases cfg d st with ⟨h1, _⟩ | ⟨_, _, s, hq, h1, _⟩
+  rcases start_cases cfg d st with ⟨h1, _⟩ | ⟨_, _, _, s, hq, h1, _⟩
   · rw [h1]; exact h
   · rw [h1, (disk_cur_of_md hq.md).1]; exact hq.cur_mono j h
 
@@ -544,6 +555,7 @@ structure Env.Undisturbed (env : Env) : Prop where
   beh : ∀ i, env.beh i = ⟨false, none, .none⟩
   noCancel : 200 ≤ env.cancelAt
   noCrash : 200 ≤ env.crashAt
+  noFail : env.failAt = 0
 
 def applyAll (last : SV) (l : List Nat) (s : RunSt) : RunSt :=
   l.foldl (fun s i =>
@@ -552,13 +564,14 @@ def applyAll (last : SV) (l : List Nat) (s : RunSt) : RunSt :=
       log := .apply i :: .ret i none .none false :: .call i s.cur :: .before i (s.disk.ist i) :: s.log }) s
 
 theorem runMigration_clean (cfg : Cfg) (env : Env) (last : SV) (i : Nat) (s : RunSt)
-    (hb : env.beh i = ⟨false, none, .none⟩) (hc : s.tick + 3 ≤ env.cancelAt) (hd : s.tick + 3 ≤ env.crashAt) :
+    (hb : env.beh i = ⟨false, none, .none⟩) (hc : s.tick + 3 ≤ env.cancelAt) (hd : s.tick + 3 ≤ env.crashAt)
+    (hf : env.failAt = 0) :
     runMigration cfg env last i s = (applyAll last [i] s, none) := by
   have h1 : ¬ env.crashAt ≤ s.tick := by omega
   have h2 : ¬ env.crashAt ≤ s.tick + 1 := by omega
   have h3 : ¬ env.crashAt ≤ s.tick + 1 + 1 := by omega
   have h4 : ¬ env.cancelAt ≤ s.tick + 1 + 1 := by omega
-  simp [runMigration, applyAll, RunSt.dead, RunSt.cancelled, RunSt.tickEv, hb, h1, h2, h3, h4]
+  simp [runMigration, applyAll, RunSt.dead, RunSt.cancelled, RunSt.tickEv, RunSt.writeFails, hf, hb, h1, h2, h3, h4]
 
 theorem applyAll_tick (last : SV) (l : List Nat) (s : RunSt) : (applyAll last l s).tick = s.tick + 3 * l.length := by
   induction l generalizing s with
@@ -567,7 +580,8 @@ theorem applyAll_tick (last : SV) (l : List Nat) (s : RunSt) : (applyAll last l 
     have : applyAll last (a :: r) s = applyAll last r (applyAll last [a] s) := by simp [applyAll]
     rw [this, ih]; simp [applyAll]; omega
 
-theorem runLoop_clean (cfg : Cfg) (env : Env) (last : SV) (hb : ∀ i, env.beh i = ⟨false, none, .none⟩) :
+theorem runLoop_clean (cfg : Cfg) (env : Env) (last : SV) (hb : ∀ i, env.beh i = ⟨false, none, .none⟩)
+    (hf : env.failAt = 0) :
     ∀ (l : List Nat) (s : RunSt), s.tick + 3 * l.length < env.cancelAt → s.tick + 3 * l.length < env.crashAt →
     runLoop cfg env last l s = (applyAll last l s, .ok) := by
   intro l
@@ -583,7 +597,7 @@ theorem runLoop_clean (cfg : Cfg) (env : Env) (last : SV) (hb : ∀ i, env.beh i
     have h1 : ¬ env.crashAt ≤ s.tick := by omega
     have h2 : ¬ env.cancelAt ≤ s.tick := by omega
     simp only [runLoop, RunSt.dead, RunSt.cancelled, h1, h2, decide_false, Bool.false_eq_true, if_false]
-    rw [runMigration_clean cfg env last a s (hb a) (by omega) (by omega)]
+    rw [runMigration_clean cfg env last a s (hb a) (by omega) (by omega) hf]
     simp only []
     have ht : (applyAll last [a] s).tick = s.tick + 3 := by simp [applyAll]
     rw [ih _ (by rw [ht]; omega) (by rw [ht]; omega)]
@@ -630,7 +644,8 @@ theorem run_undisturbed (cfg : Cfg) (reg : Registry) (env : Env) (d : Disk) (hu 
   have hc0 : ¬ env.crashAt ≤ 0 := by have := hu.noCrash; omega
   have hc1 : ¬ env.crashAt ≤ 0 + 1 := by have := hu.noCrash; omega
   unfold run
-  simp only [RunSt.dead, RunSt.tickEv, hc0, hc1, decide_false, Bool.false_eq_true, if_false]
+  have hwf : (env.failAt == 0 + 1) = false := by simp [hu.noFail]
+  simp only [RunSt.dead, RunSt.tickEv, RunSt.writeFails, hwf, hc0, hc1, decide_false, Bool.false_eq_true, if_false]
   split
   · rename_i hp
     have h0 := (SV.eq_zero_iff _).mp (by simpa using hp)
@@ -656,7 +671,7 @@ theorem run_undisturbed (cfg : Cfg) (reg : Registry) (env : Env) (d : Disk) (hu 
       exact Nat.le_trans (List.length_filter_le _ _) (by simp)
     have := hu.noCancel
     have := hu.noCrash
-    rw [runLoop_clean cfg env reg.target hu.beh _ _ (by simp; omega) (by simp; omega)]
+    rw [runLoop_clean cfg env reg.target hu.beh hu.noFail _ _ (by simp; omega) (by simp; omega)]
     have hl : ∀ i ∈ SV.iter (SV.diff reg.target d.metaD.cur), i < 64 := fun i hi => SV.has_lt ((SV.mem_iter _ _).mp hi)
     refine ⟨rfl, ?_, ?_⟩
     · rw [applyAll_md _ _ _ rfl]
@@ -729,7 +744,7 @@ theorem start_calls (cfg : Cfg) (d : Disk) (st : Start) :
     ∀ j c, Event.call j c ∈ (start cfg d st).2.1 →
       st.reg.target.has j = true ∧ d.cur.has j = false ∧ c.has j = false ∧
       (∀ i, i < j → st.reg.target.has i = true → c.has i = true ∨ InProg (start cfg d st).2.1 i) := by
-  rcases start_cases cfg d st with ⟨_, h2⟩ | ⟨_, _, s, hq, _, h2⟩
+  rcases start_cases cfg d st with ⟨_, h2⟩ | ⟨_, _, _, s, hq, _, h2⟩
   · rw [h2]; simp [callIdxs]
   · rw [h2]
     refine ⟨hq.callsDesc, ?_⟩
